@@ -236,6 +236,31 @@ func runRoar(c roarCase, r *pb.Rec) error {
 					return fmt.Errorf("step %d: %s enumerated %d members, want %d of %d", step, name, n, exp, len(want))
 				}
 			}
+			// the sequence value returned by All() is reusable: ranging it again (also after an early break)
+			// enumerates the whole set again
+			seq := bm.All()
+			for round := 0; round < 2; round++ {
+				k := 0
+				stopAt := -1
+				if round == 0 && len(want) > 1 {
+					stopAt = len(want) / 2
+				}
+				seq(func(v uint32) bool {
+					if k < len(want) && v == want[k] {
+						k++
+					} else {
+						k = -1 << 30
+					}
+					return k-1 != stopAt
+				})
+				exp := len(want)
+				if stopAt >= 0 {
+					exp = stopAt + 1
+				}
+				if k != exp {
+					return fmt.Errorf("step %d: ranging the same All() sequence (round %d) enumerated %d members in order, want %d of %d", step, round+1, k, exp, len(want))
+				}
+			}
 			nonEmpty, nd := 0, 0
 			for h, k := range count {
 				if k > 0 {
